@@ -38,7 +38,8 @@ ObsChecks(o) == <<
     <<"C01.AppRoot", \A h \in Hs(o) : BlockAt(o, h).appok /\ BlockAt(o, h).app = RootBefore(o, h)
                                       /\ (("replay" \in DOMAIN BlockAt(o, h)) => BlockAt(o, h).replay # "bad"),
         "header state root is not the root after all earlier blocks (by the root book, or by replaying the stored chain into a fresh execution layer)">>,
-    <<"C01.DataCommit", \A h \in Hs(o) : BlockAt(o, h).dh /\ BlockAt(o, h).meta = "ok", "data hash / metadata does not commit to the stored transactions">>,
+    <<"C01.DataCommit", \A h \in Hs(o) : BlockAt(o, h).dh /\ BlockAt(o, h).meta = "ok" /\ (("ldh" \in DOMAIN BlockAt(o, h)) => BlockAt(o, h).ldh),
+        "data hash / metadata does not commit to the stored transactions, or the metadata does not link to the previous block's data">>,
     <<"C01.Signed", \A h \in Hs(o) : BlockAt(o, h).sig = "P" /\ BlockAt(o, h).ssig = "P", "committed block not signed by the genesis proposer">>,
     <<"C01.FromBatch", o.height >= o.ih => Embeds(o, o.ih + 1, 1, taken), "committed blocks are not built from the handed-out batches in order">>,
     <<"C04.Index", \A h \in Hs(o) : BlockAt(o, h).idx, "block not retrievable by its hash">>,
